@@ -28,7 +28,9 @@ RULE = ('a real EventMgr on a temp root and the in-memory ZooKeeper holding /pla
         'placement. Watch notifications are delivered on a separate thread (as kazoo does); os._exit is intercepted as '
         'the death of the process, after which a new agent is started on a new session (the supervisor); a '
         'service that exits four times in a row before reaching a heartbeat is checked as it stands. Every other shard runs under the C locale without '
-        'UTF-8 mode (text files are ASCII); manifests may contain non-ASCII text. Distinct by '
+        'UTF-8 mode (text files are ASCII); manifests may contain any text a JSON document can (non-ASCII, characters outside the BMP, multi-line '
+        'scripts, tabs, leading / trailing blanks, 1500-character values, text that looks like a YAML scalar or indicator); cache files are read with the node\'s own reader '
+        '(appcfg.manifest.read(path, "yaml")) and with a plain YAML reader, which must agree. Distinct by '
         '(case, app, point).')
 ASSUMPTIONS = ['in-memory ZooKeeper fake; real filesystem under a temp dir', 'EventMgr._hostname set by the harness',
                'what another process (or the disk after a kill) sees at an instant is what the kernel has: the harness reads the directory from inside the hook without flushing the writer\'s buffers',
@@ -37,7 +39,9 @@ BUDGET = {'quick': (22, 20.0), 'thorough': (900, 260.0)}
 REQUIRED_REACH = {'*': ['sync_calls', 'files_written_checked', 'extra_removed', 'outdated_rewritten', 'uptodate_kept',
                         'crash_views', 'failpoints_raised', 'syscall_boundaries', 'big_manifest_points', 'subsecond_ctime_cases',
                         'service_loop_checks', 'service_loop_evicted_to_empty', 'service_loop_empty_placement_checked',
-                        'legacy_yaml_replica_cases', 'views_while_a_failure_is_handled']}
+                        'legacy_yaml_replica_cases', 'views_while_a_failure_is_handled',
+                        'files_written_checked_with_text:outside_bmp', 'files_written_checked_with_text:layout',
+                        'files_written_checked_with_text:yaml_lookalike', 'service_loop_files_checked_with_text:outside_bmp']}
 
 TOOL = 3
 
@@ -50,6 +54,31 @@ def SHARD_ENV(shard, _seed):      # pylint: disable=invalid-name
     return {}
 
 
+# manifests are JSON documents: any text is legal in a value (the app schema puts no pattern on environ values or commands)
+TEXT_BMP = ['Z\u00fcrich', '\u6771\u4eac', 'caf\u00e9 \u2013 bar']
+TEXT_ASTRAL = ['\U0001F600 deploy', '\U00020BB7\u91ce\u5bb6', 'ok \U0001F44D\U0001F3FD', 'math \U0001D54F']      # outside the BMP: emoji, CJK extension B
+TEXT_LAYOUT = ['line1\nline2\n', 'a\tb', ' leading', 'trailing ', 'x\n\n  y', 'w' * 1500]
+TEXT_YAMLISH = ['yes', 'null', '~', '1e3', '1:30', '0x1F', '012', 'a: b', '- x', '# c', '"q"', "it's", '{a}', '[1]', '&a', '*a', '!t', '%d', '@x', '`y`', '']
+
+
+def text_classes(content):
+    """Which classes of text the values of a manifest contain."""
+    vals = [e.get('value') for e in content.get('environ', [])] + [sv.get('command') for sv in content.get('services', [])]
+    out = set()
+    for v in vals:
+        if not isinstance(v, str):
+            continue
+        if any(ord(c) > 0xFFFF for c in v):
+            out.add('outside_bmp')
+        elif any(ord(c) > 0x7F for c in v):
+            out.add('non_ascii')
+        if v in TEXT_LAYOUT or '\n' in v:
+            out.add('layout')
+        if v in TEXT_YAMLISH:
+            out.add('yaml_lookalike')
+    return out
+
+
 def gen_manifest(rng, big=False):
     man = {'memory': '%dM' % rng.choice([100, 512]), 'cpu': '%d%%' % rng.choice([10, 100]), 'disk': '1G',
            'services': [{'name': 'web', 'command': '/bin/sleep %d' % rng.randint(1, 99), 'restart': {'limit': 5, 'interval': 60}}],
@@ -60,10 +89,22 @@ def gen_manifest(rng, big=False):
         man['identity'] = rng.choice([None, 7])          # the placement's value must win
     if rng.random() < 0.25:
         # manifests are JSON documents: any text is legal in a value
-        man['environ'].append({'name': 'CITY', 'value': rng.choice(['Z\u00fcrich', '\u6771\u4eac', 'caf\u00e9 \u2013 bar'])})
+        man['environ'].append({'name': 'CITY', 'value': rng.choice(TEXT_BMP)})
+    if rng.random() < 0.3:
+        for i in range(rng.randint(1, 3)):
+            man['environ'].append({'name': 'TXT%d' % i, 'value': rng.choice(rng.choice([TEXT_ASTRAL, TEXT_ASTRAL, TEXT_LAYOUT, TEXT_YAMLISH]))})
+    if rng.random() < 0.1:
+        # a service started by a small shell script
+        man['services'][0]['command'] = '#!/bin/sh\necho "%s"\nexec /bin/sleep %d\n' % (rng.choice(TEXT_BMP + TEXT_ASTRAL), rng.randint(1, 99))
     if big:
         man['environ'] += [{'name': 'BIG%d' % i, 'value': 'x' * 200} for i in range(rng.randint(60, 200))]
     return man
+
+
+def node_read(path):
+    """The node's own reader of a cache file (what appcfg.manifest.load starts with)."""
+    from treadmill.appcfg import manifest as app_manifest
+    return app_manifest.read(path, 'yaml')
 
 
 class _Stop(BaseException):
@@ -242,8 +283,14 @@ def service_loop_case(ctx, idx, rng):
                 if not os.path.exists(path):
                     ctx.violation('placed-instance-without-cache-file:service-loop', '%s is placed, its manifest exists, no cache file after %s' % (a, when), case=case)
                     continue
-                with open(path) as f:
-                    got = _yaml.safe_load(f.read())
+                try:
+                    got = node_read(path)
+                except Exception as err:       # noqa
+                    ctx.violation('written-manifest-unreadable', '%s: the node\'s reader cannot load the cache file after %s: %s: %s' % (
+                        a, when, type(err).__name__, str(err)[:200]), case=case)
+                    continue
+                for cls in text_classes(exp):
+                    ctx.count('service_loop_files_checked_with_text:' + cls)
                 if got != exp:
                     diff = sorted(k for k in set(got) | set(exp) if got.get(k) != exp.get(k))
                     ctx.violation('written-manifest-differs:%s' % diff[0], '%s: fields %s differ (file %r, expected %r) after %s' % (
@@ -386,8 +433,14 @@ def run(ctx):
     host = 'node1'
 
     def load(path):
+        # the way the node reads its cache (appcfg.manifest.load -> read(event, 'yaml')), and the way any other YAML
+        # reader does: both must see the same document
+        got = node_read(path)
         with open(path) as f:
-            return _yaml.safe_load(f.read())
+            plain = _yaml.safe_load(f.read())
+        if plain != got:
+            raise ValueError('the node\'s reader and a plain YAML reader disagree on %s' % os.path.basename(path))
+        return got
 
     for idx, rng in ctx.cases():
         service_loop_case(ctx, idx, ctx.case_rng(idx, 'loop'))
@@ -519,8 +572,15 @@ def run(ctx):
                     if k == 'outdated':
                         ctx.count('outdated_rewritten')
                 if rewritten:
-                    got = load(path)
+                    try:
+                        got = load(path)
+                    except Exception as err:       # noqa
+                        ctx.violation('written-manifest-unreadable', '%s: the node\'s reader cannot load the file written by the synchronisation: %s: %s' % (
+                            a, type(err).__name__, str(err)[:200]), case=case)
+                        continue
                     ctx.count('files_written_checked')
+                    for cls in text_classes(expected_content[a]):
+                        ctx.count('files_written_checked_with_text:' + cls)
                     if got != expected_content[a]:
                         diff = sorted(kk for kk in set(got) | set(expected_content[a]) if got.get(kk) != expected_content[a].get(kk))
                         ctx.violation('written-manifest-differs:%s' % diff[0], '%s: fields %s differ (file %r, expected %r)' % (
